@@ -2,7 +2,7 @@
 import vlib
 from props import recfam
 
-INV = ['C12_SupportedInputs', 'C12_WrittenIsNearest', 'C12_FindClosest', 'C12_ExactAndExtremes', 'C12_SequenceReceives']
+INV = ['C12_SupportedInputs', 'C12_WrittenIsNearest', 'C12_FindClosest', 'C12_ExactAndExtremes', 'C12_SequenceReceives', 'C12_ConfiguredMapIsUsed']
 CONF = ['C12_ConformsCoded']
 
 
@@ -24,14 +24,24 @@ def check(run):
         if vlib.parse_violation(out):
             run.cov['drift'].append(dict(trace=os.path.basename(t), note='FindClosest tie-breaking differs from the model (larger neighbour)'))
             vlib.log('[DRIFT] FindClosest tie-breaking differs from NearestCoded')
-    n = recfam.count_lines(traces) // 4     # one Map and three Seq records per map
+    # where the map comes from (configured / stored / swept): the stored-or-swept part is conformance (drift)
+    rc, out = run.tlc('Rec_C12', recfam.rec_cfg('Rec_C12', ['G12_StoredOrSwept']), 'conf_mapsrc', workers=1, env=dict(VERIF_TRACE=traces[0]))
+    if vlib.parse_violation(out):
+        run.cov['drift'].append(dict(trace=os.path.basename(traces[0]), note='without a configured map the controller does not use the stored / swept one'))
+        vlib.log('[DRIFT] map source: without a configured map the controller does not use the stored / swept one')
+    srcs = sum(1 for ln in open(traces[0]) if '"ev":"MapSrc"' in ln)
+    if srcs < 12:
+        raise vlib.Infra('vacuous: %d map-source records' % srcs)
+    run.cov['map_source_cases'] = srcs
+    n = (recfam.count_lines(traces) - srcs) // 4     # one Map and three Seq records per map
     run.cov['traces_validated_against_impl'] = n
     return run.finish('model_checking',
                       'PwmMap.tla (definition) model-checked for all maps over a 6-key universe x 3 outputs x requests -3..258; records '
                       'of the real code for ALL maps over a key universe of %d positions (incl. adjacent keys, 0, 255) x outputs {0,128,255} '
                       'plus seeded random full-size / constant / single-entry / non-monotonic maps, each with the written value for every '
                       'request -50..305 through the controller\'s setPwm on a real hwmon fan, and a 40-request sequence without resetting the '
-                      'register (fan showing what the previous request or a third party left); TLC checks every entry against the definition; '
+                      'register (fan showing what the previous request or a third party left); the real computePwmMap for hwmon / file / cmd fans '
+                      'with a configured map, a stored map, both or neither; TLC checks every entry against the definition; '
                       'non-trivial = maps' % run.pick(6, 8),
                       dict(evaluations=n * 396, distinct_nontrivial=n, maps=n, requests_per_map=356, exhaustive=True),
                       ['outputs are PWM values (0..255); negative outputs (the code\'s -1 marker) are outside the property\'s domain'])
